@@ -182,6 +182,24 @@ def bodyRuns (f : Facts) : Bool :=
 def bodyWouldRun (f : Facts) : Bool :=
   (depLoop f.deps).isNone && !f.upToDateErr && !f.skip
 
+/-- a target's own events and the lines of its output, in the order they are delivered -/
+inductive Out where
+  | ev (e : Ev)
+  | print (line : List UInt8)
+deriving DecidableEq, Repr
+
+/-- `runTarget.Evaluate` together with the output of the body. `t.target.evaluate()` (function.go) runs the
+body with the target's line writer as stdout and stderr of its thread (`util.SetStdio(thread, f.out, f.out)`)
+and flushes the writer before it returns (`defer f.out.Flush()`), so everything the body writes is delivered
+between `TargetEvaluating` and the event that ends the target. `line` is the content of the writer's builder
+when the build starts; the third component is its content afterwards. -/
+def evaluateOut (f : Facts) (line : List UInt8) (chunks : List (List UInt8)) : List Out × Bool × List UInt8 :=
+  let r := evaluate f
+  if bodyRuns f then
+    let w := LineWriter.run line (chunks.map LineWriter.Op.write ++ [LineWriter.Op.flush])
+    ([Out.ev .evaluating] ++ w.2.map Out.print ++ (r.1.drop 1).map Out.ev, r.2, w.1)
+  else (r.1.map Out.ev, r.2, line)
+
 /-- how a dependent sees a dependency that was loaded and evaluated with result `r` (`none`: `LoadTarget` failed
 with `UnknownTargetError`). A cycle is reported by the runner's walk, not by the dependency: `cyc`. -/
 def depOf (cyc : Bool) (r : Option (List Ev × Bool)) : Dep :=
